@@ -26,13 +26,40 @@ BUDGET = {'quick': 6000, 'thorough': 160000}
 EXHAUSTIVE_DOMAINS = {
     'int_lattice': 'Int(min,max) over {None,0,1,2}^2 x noneable x frozen(default=min-ish): all ordered pairs',
     'list_lattice': 'List(Int, min_size, max_size) over {0,1,2} x {None,0,1,2} x noneable: all ordered pairs',
+    'enum_vs_int': 'base Int(min,max) over {None,0,1,2}^2 x child Enum over every non-empty subset of {-1,0,1,2,3}',
+    'union_overlap': 'Union of Bool and Int(min,max) over {None,0,2}^2 in both orders, bare or as List element x every ordered pair '
+                     'of values from {True,False,-1,0,1,2,3,"s"} applied to one spec object vs fresh equal specs',
 }
 REJECT = (TypeError, ValueError, KeyError)
 DERIVE = ['same', 'min+', 'min-', 'max+', 'max-', 'nomin', 'nomax', 'noneable', 'default', 'frozen',
-          'size+', 'size-', 'elem', 'enum-', 'enum+', 'field+', 'field-', 'cand+', 'kind', 'inner']
+          'size+', 'size-', 'elem', 'enum-', 'enum+', 'field+', 'field-', 'cand+', 'kind', 'inner', 'to-enum']
+
+
+OVERLAP_VALUES = [True, False, -1, 0, 1, 2, 3, 's']
+
+
+def _overlap_strategy():
+  bound = st.sampled_from([None, 0, 1, 2])
+  return st.fixed_dictionaries({
+      'overlap': st.fixed_dictionaries({
+          'lo': bound, 'hi': bound, 'bool_first': st.booleans(), 'str': st.booleans(),
+          'wrap': st.sampled_from(['none', 'list'])}),
+      'seq': st.lists(st.sampled_from(OVERLAP_VALUES), min_size=2, max_size=5),
+  }).map(_order_bounds)
+
+
+def _order_bounds(c):
+  o = c['overlap']
+  if o['lo'] is not None and o['hi'] is not None and o['lo'] > o['hi']:
+    o['lo'], o['hi'] = o['hi'], o['lo']
+  return c
 
 
 def strategy(tier):
+  return st.one_of(_main_strategy(tier), _main_strategy(tier), _main_strategy(tier), _main_strategy(tier), _overlap_strategy())
+
+
+def _main_strategy(tier):
   return st.fixed_dictionaries({
       'a': specs.spec_strategy(max_leaves=4),
       'derive': st.lists(st.tuples(st.sampled_from(DERIVE), st.integers(0, 5)).map(list), max_size=3),
@@ -78,7 +105,26 @@ def exhaustive(tier):
   def pairs(descs):
     for x, y in itertools.product(descs, repeat=2):
       yield {'a': x, 'derive': [], 'other': y, 'values': vals}
-  return {'int_lattice': pairs(ints()), 'list_lattice': pairs(lists())}
+  def enums():
+    pool = [-1, 0, 1, 2, 3]
+    for lo, hi in itertools.product(b, b):
+      if lo is not None and hi is not None and lo > hi:
+        continue
+      for mask in range(1, 32):
+        vs = [x for i, x in enumerate(pool) if (mask >> i) & 1]
+        yield {'a': {'t': 'int', 'min': lo, 'max': hi}, 'derive': [],
+               'other': {'t': 'enum', 'values': vs, 'default': [0]},
+               'values': [[1, [i]] for i in range(len(vs))] + [[0, [0]], [2, [0]], [2, [1]]]}
+
+  def overlaps():
+    for lo, hi in itertools.product([None, 0, 2], repeat=2):
+      if lo is not None and hi is not None and lo > hi:
+        continue
+      for bool_first in (True, False):
+        for wrap in ('none', 'list'):
+          for x, y in itertools.product(OVERLAP_VALUES, repeat=2):
+            yield {'overlap': {'lo': lo, 'hi': hi, 'bool_first': bool_first, 'str': False, 'wrap': wrap}, 'seq': [x, y]}
+  return {'int_lattice': pairs(ints()), 'list_lattice': pairs(lists()), 'enum_vs_int': enums(), 'union_overlap': overlaps()}
 
 
 def _derive(d, kind, arg):
@@ -176,6 +222,20 @@ def _derive(d, kind, arg):
         d['cands'].append(c)
         break
     return d
+  if kind == 'to-enum' and t in ('int', 'float'):
+    # an Enum child of a ranged numeric base: values on, inside and just outside the bounds
+    lo, hi = d.get('min'), d.get('max')
+    pool = [x for x in ((lo - 1) if lo is not None else None, lo, hi, (hi + 1) if hi is not None else None, 0, 1) if x is not None]
+    vals = []
+    for i, x in enumerate(pool):
+      if (arg >> i) & 1 or i == arg % len(pool):
+        x = float(x) if t == 'float' else int(x)
+        if x not in vals:
+          vals.append(x)
+    out = {'t': 'enum', 'values': vals, 'default': [0]}
+    if d.get('noneable'):
+      out['noneable'] = True
+    return out
   if kind == 'kind':
     if t == 'int':
       return {**d, 't': 'float'}
@@ -277,8 +337,54 @@ def _enum_vs_base(da, db):
   return any(_enum_vs_base(x, y) for x, y in pairs_)
 
 
+def _execute_overlap(case, res):
+  """Unions whose candidates overlap in Python type (bool is an int): acceptance must not depend on history."""
+  o, seq = case.get('overlap'), case.get('seq')
+  if not isinstance(o, dict) or not isinstance(seq, list) or not seq or len(seq) > 8:
+    raise core.InvalidCase(case)
+  lo, hi = o.get('lo'), o.get('hi')
+  for x in (lo, hi):
+    if not (x is None or (isinstance(x, int) and not isinstance(x, bool))):
+      raise core.InvalidCase(case)
+  if lo is not None and hi is not None and lo > hi:
+    raise core.InvalidCase(case)
+  for v in seq:
+    if not (isinstance(v, (bool, int)) or v == 's'):
+      raise core.InvalidCase(case)
+
+  def make():
+    cands = [pg.typing.Bool(), pg.typing.Int(min_value=lo, max_value=hi)]
+    if not o.get('bool_first'):
+      cands.reverse()
+    if o.get('str'):
+      cands.append(pg.typing.Str())
+    u = pg.typing.Union(cands)
+    return pg.typing.List(u) if o.get('wrap') == 'list' else u
+  shared = make()
+  sig = {'a': 'union-overlap', 'wrap': str(o.get('wrap'))}
+  res.label('overlap', 'wrap:%s' % o.get('wrap'))
+  outcomes = []
+  for v in seq:
+    val = [v] if o.get('wrap') == 'list' else v
+    ok_s, rs = _accepts(shared, lambda val=val: copy.deepcopy(val))
+    ok_f, rf = _accepts(make(), lambda val=val: copy.deepcopy(val))
+    for ok, r in ((ok_s, rs), (ok_f, rf)):
+      if ok is False and not isinstance(r, REJECT):
+        return res.violate('apply raised %r' % (r,), law='apply-raises-other', **sig)
+    outcomes.append((ok_s, ok_f))
+    if ok_s != ok_f or (ok_s and not pg.eq(rs, rf)):
+      return res.violate('%r: after applying %r, the value %r is %s (result %r); a fresh equal spec %s it (result %r)' % (
+          shared, seq[:len(outcomes) - 1], val, 'accepted' if ok_s else 'rejected', rs, 'accepts' if ok_f else 'rejects', rf),
+                         law='apply-history-dependent', **sig)
+  if len({type(v) for v in seq}) > 1 and any(a for a, _ in outcomes) and not all(a for a, _ in outcomes):
+    res.nontrivial = True
+  return res
+
+
 def execute(case):
   res = core.Result()
+  if isinstance(case, dict) and 'overlap' in case:
+    return _execute_overlap(case, res)
   if not isinstance(case, dict) or not isinstance(case.get('a'), dict):
     raise core.InvalidCase(case)
   specs._CLASS_CACHE.clear()   # pylint: disable=protected-access
@@ -363,6 +469,18 @@ def execute(case):
         return res.violate('a=%r: apply(apply(v))=%r != apply(v)=%r' % (sa, again, ra),
                            law='idempotence', how='differs', **sig)
     # (4) compatibility is sound
+  # (3b) acceptance is a function of the value: a fresh, equal spec decides every candidate the same way
+  idx = 0
+  for mk, tag in cands:
+    fresh = specs.to_spec(da)
+    ok_f, rf = _accepts(fresh, mk)
+    if ok_f is None:
+      continue
+    if idx < len(acc_a) and ok_f != acc_a[idx]:
+      return res.violate('a=%r: %r is %s by a fresh spec but was %s by the same spec after it had applied other values' % (
+          sa, mk(), 'accepted' if ok_f else 'rejected', 'accepted' if acc_a[idx] else 'rejected'),
+                         law='apply-history-dependent', **sig)
+    idx += 1
   try:
     compat = sa.is_compatible(sb)
   except Exception as e:   # pylint: disable=broad-except
